@@ -224,20 +224,29 @@ def impl_rdb(case, read_timeout):
 # comparison
 
 def signature(case, impl_cls, want_cls, what):
-    kinds = sorted({sym_kind(s) for s in case.get('fs', [])} | {'b:' + sym_kind(s) for s in case.get('fsb', [])})
+    # only the part of the script the model consumed decides the outcome
+    used = case.get('fs', [])[:case.get('_consumed', len(case.get('fs', [])))]
+    usedb = case.get('fsb', [])[:case.get('_consumed_b', len(case.get('fsb', [])))]
+    kinds = sorted({sym_kind(s) for s in used} | {'b:' + sym_kind(s) for s in usedb})
     extra = ''
     if case['kind'] == 'chunk' and any(s == [0, 404] for s in case['fs']):
         extra = ';bucket=%s;verified=%d' % (('full', 'empty', 'missing')[case['bucket']], int(case['verified']))
     if case['kind'] == 'token':
         extra = ';token=%s' % case.get('label', '?')
+    names = dict(CLASS_NAMES)
+    if case['kind'] == 'rdb':
+        names[1] = 'DataSourceNotFound'
     return 'kind=%s;faults=%s%s;what=%s;impl=%s;want=%s' % (
-        case['kind'], '+'.join(kinds) or 'none', extra, what, CLASS_NAMES.get(impl_cls, impl_cls),
-        CLASS_NAMES.get(want_cls, want_cls))
+        case['kind'], '+'.join(kinds) or 'none', extra, what, names.get(impl_cls, impl_cls),
+        names.get(want_cls, want_cls))
 
 
 def compare(ctx, case, mout, read_timeout=0.5, confirm=True):
     """Runs the implementation on `case` and compares with the model output; returns True if all agreed."""
     kind = case['kind']
+    case['_consumed'] = mout[1]
+    if kind == 'chunk':
+        case['_consumed_b'] = mout[2]
     if kind == 'rdb':
         icls, ireq, _ = impl_rdb(case, read_timeout)
         mcls, mn, scls, sn = mout[0][0], mout[1], mout[2][0], mout[3]
@@ -276,6 +285,14 @@ def compare(ctx, case, mout, read_timeout=0.5, confirm=True):
         # possible scheduling noise (a slow good response looks like a stall): confirm with a generous timeout
         return compare(ctx, case, mout, read_timeout=2.5, confirm=False)
     ctx.traces_validated += 1
+    if len({d['signature'] for d in ctx.disagreements}) >= 30:
+        problems = problems[:0] if not problems else problems[:1]
+        if problems and signature(case, problems[0][2], problems[0][3], problems[0][1]) not in \
+                {d['signature'] for d in ctx.disagreements}:
+            ctx.count('disagreements_beyond_30_signatures')
+            problems = []
+    if _state.get('stale'):
+        problems = [q for q in problems if q[0] == 'property']
     for (k, what, a, b) in problems:
         ctx.disagree(signature(case, a, b, what), case, dict(result=CLASS_NAMES.get(icls, icls), requests=ireq),
                      dict(model=mout), 'implementation %s differs from %s (%s)' % (what, 'spec' if k == 'property' else 'model',
@@ -468,11 +485,12 @@ def token_cases(ctx):
 # ---------------------------------------------------------------------------------------------------
 
 def canon(case):
-    return json.dumps({k: v for k, v in case.items() if k not in ('token_str', 'url')}, sort_keys=True, default=str)
+    return json.dumps({k: v for k, v in case.items() if k not in ('token_str', 'url') and not k.startswith('_')},
+                      sort_keys=True, default=str)
 
 
 def run_cases(ctx, cases):
-    mouts = ctx.model([model_case(c) for c in cases]) if ctx.model_ok else None
+    mouts = ctx.model([model_case(c) for c in cases]) if (ctx.model_ok or _state.get('stale')) else None
     for i, c in enumerate(cases):
         if mouts is None:
             continue
@@ -491,11 +509,17 @@ def run_cases(ctx, cases):
 def run(ctx):
     quiet()
     if not ctx.model_ok:
-        return
+        # broken translator / model build: search for a failing input against the SPEC computed by the model binary of
+        # the last good build (the spec does not depend on the tree); ties are not judged with a stale model
+        from vh import core
+        if not os.path.exists(os.path.join(core.EXTRACT_DIR, 'driver')):
+            return
+        _state['stale'] = True
     env()
     # known-finding witnesses first (fixed ones must pass, open ones must still fail)
     for f in ctx.findings:
         w = dict(f['witness'])
+        w.setdefault('label', 'witness')
         mo = ctx.model([model_case(w)])[0]
         compare(ctx, w, mo)
         ctx.count('known_finding_witnesses')
